@@ -32,6 +32,7 @@ def run(ctx):
     ctx.run_rule('C12.2', 'T1', 'reservations: created only by reserve_space, shrunk from the front after the copy, unforgeable', codec.r_reservations, prog)
     ctx.run_rule('C12.3', 'T4', 'growable reservations are zeroed before set_len with the same count', codec.r_zeroed_growable_reservation, prog)
     ctx.run_rule('C12.4', 'T2', 'unsafe-site table: every unchecked write is dominated by the matching capacity check', codec.r_unsafe_sites, prog)
+    ctx.run_rule('C12.7', 'T3', 'the end-of-buffer error is built exactly when the request does not fit', codec.r_capacity_refusals_exact, prog)
     ctx.run_rule('C12.5', 'T7', 'panic/overflow sites of the buffer module (ledger, invariant pos <= len)', c11.r_codec_panic_ledger, prog)
     for name, p in sorted(ctx.configs.items()):
         ctx.run_rule('C12.1a@' + name, 'T2', 'no write precedes an error return [%s]' % name, codec.r_failure_leaves_no_trace, p)
